@@ -4,23 +4,25 @@
 # 3. the check against a scratch copy of the patched tree (tools/mutant_run.sh, scratch /tmp/eval-*)
 set -u
 D=$(readlink -f "$1"); ID=$2; DEMO=${3:-}; TIER=${4:-quick}
-W=/tmp/confirm-wt
+SLOT=${EVAL_SLOT:-}
+W=/tmp/confirm-wt$SLOT
+export CONFIRM_WT=$W
 export CARGO_NET_OFFLINE=true; unset RUSTFLAGS
 echo "== [3] (started in background) check $ID $TIER against the patched tree"
-(MUT_NAME=eval /verif/tools/mutant_run.sh $D/patch.diff $ID $TIER > /tmp/eval-check.log 2>&1) &
+(MUT_NAME=eval$SLOT /verif/tools/mutant_run.sh $D/patch.diff $ID $TIER > /tmp/eval$SLOT-check.log 2>&1) &
 CHK=$!
 echo "== [1] suite with patch"
 /verif/tools/confirm_suite.sh $D/patch.diff | tail -4
 if [ -n "$DEMO" ]; then
   echo "== [2a] demo WITH patch (must fail)"
   [ -f $D/demo/demo.diff ] && (git -C $W apply $D/demo/demo.diff || echo "demo.diff does not apply")
-  (cd $W && eval "$DEMO") > /tmp/eval-demo-with.log 2>&1; echo "demo with patch: exit $?"; grep -E "^test result|panicked|FAILED" /tmp/eval-demo-with.log | head -5
+  (cd $W && eval "$DEMO") > /tmp/eval$SLOT-demo-with.log 2>&1; echo "demo with patch: exit $?"; grep -E "^test result|panicked|FAILED" /tmp/eval$SLOT-demo-with.log | head -5
   echo "== [2b] demo WITHOUT patch (must pass)"
   git -C $W apply -R $D/patch.diff || echo "cannot reverse patch"
-  (cd $W && eval "$DEMO") > /tmp/eval-demo-without.log 2>&1; echo "demo without patch: exit $?"; grep -E "^test result|panicked|FAILED" /tmp/eval-demo-without.log | head -5
+  (cd $W && eval "$DEMO") > /tmp/eval$SLOT-demo-without.log 2>&1; echo "demo without patch: exit $?"; grep -E "^test result|panicked|FAILED" /tmp/eval$SLOT-demo-without.log | head -5
 fi
 wait $CHK
 echo "== [3] result of check $ID $TIER against the patched tree"
-for f in $(ls /tmp/eval-out/replays/$ID/*.json 2>/dev/null | head -4); do python3 -c "
+for f in $(ls /tmp/eval$SLOT-out/replays/$ID/*.json 2>/dev/null | head -4); do python3 -c "
 import json,sys; d=json.load(open('$f')); print('   key:', d['key'][:200]); print('   what:', d['what'][:300])"; done
-cat /tmp/eval-check.log | grep -E "VIOLATION|KNOWN-FINDING|exit status|tier done|MACHINERY|error(\[|:)" | cut -c1-400 | head -20
+cat /tmp/eval$SLOT-check.log | grep -E "VIOLATION|KNOWN-FINDING|exit status|tier done|MACHINERY|error(\[|:)" | cut -c1-400 | head -20
